@@ -423,6 +423,47 @@ def rule_unhash(ctx):
         else:
             r.violation(key, C.loc(f, h1), f"the TypeError handler does not perform the uncached "
                         f"{bname}(...)")
+    # (seed C13_11) an option taken *out* of the keyword arguments before the builds (so that it does not enter
+    # the key) is applied by hand afterwards: that must happen behind every build of the function — the cached
+    # one, the TypeError fallback and the cache-off branch alike
+    seen_f = set()
+    for f, cname, trynode, keyexpr, build in cache_sites(ctx):
+        if f.key in seen_f:
+            continue
+        seen_f.add(f.key)
+        kwn = f.kwarg
+        if not kwn:
+            continue
+        pops = [n for n in walk_local(f.node) if isinstance(n, ast.Assign) and isinstance(n.targets[0], ast.Name)
+                and isinstance(n.value, ast.Call) and isinstance(n.value.func, ast.Attribute)
+                and n.value.func.attr == "pop" and dotted(n.value.func.value) == kwn]
+        if not pops:
+            continue
+        fl = ctx.flow(f)
+        builds = [(n, c) for n, c in fl.calls() if any(k.arg is None and dotted(k.value) == kwn for k in c.keywords)
+                  and (dotted(c.func) or "").startswith("_build")]
+        for pst in pops:
+            nm = pst.targets[0].id
+            key = ctx.key(f, "C13-UNHASH", f"popped:{nm}")
+            pn = fl.cfg.containing(pst, f.module.parents)
+            uses = [fl.cfg.containing(x, f.module.parents).id for x in walk_local(f.node)
+                    if isinstance(x, ast.Name) and x.id == nm and isinstance(x.ctx, ast.Load)]
+            uses = [u for u in uses if u != pn.id]
+            bad = None
+            for bn, c in builds:
+                if bn.id not in fl.cfg.reachable_from_succs(pn.id) and bn.id != pn.id:
+                    continue   # built before the option was taken out: it still travels in **kwargs
+                # uses that are plain None-tests do not apply the option
+                if not fl.cfg.all_paths_pass(bn.id, uses):
+                    bad = (bn, c)
+                    break
+            if bad:
+                r.violation(key, C.loc(f, bad[1]), f"`{nm}` is taken out of `{kwn}` before this build and applied by hand afterwards, "
+                            f"but not on every path from `{C.unparse(bad[1].func)}(...)` to the return: on the path that skips it "
+                            f"(unhashable-key fallback / cache off) the option is silently lost, so the same call gives different "
+                            f"results with the cache on and off")
+            else:
+                r.ok(key, C.loc(f, pst), f"`{nm}` is re-applied behind every build that no longer receives it")
     return r
 
 
